@@ -370,7 +370,12 @@ class Executor:
       x,y=as_int(a),as_int(b)
       if op is ast.Add: yield st,I(x+y)
       elif op is ast.Sub: yield st,I(x-y)
+      elif op is ast.Mult and _pow2_arg(y) is not None: yield st,I(th.shl(x,_pow2_arg(y)))      # x * 2**k is the shift idiom
+      elif op is ast.Mult and _pow2_arg(x) is not None: yield st,I(th.shl(y,_pow2_arg(x)))
       elif op is ast.Mult: yield st,I(x*y)
+      elif op in (ast.FloorDiv,ast.Mod) and _pow2_arg(y) is not None:
+        # x // 2**k and x % 2**k (also written with 1 << k): the same idiom terms as >> and the mask, never a non-linear division
+        k=_pow2_arg(y); yield st,I(th.divp(x,k) if op is ast.FloorDiv else th.modp(x,k))
       elif op in (ast.FloorDiv,ast.Mod) and s.spec:
         q=z3.If(y>0, x/y, (-x)/(-y))             # contract expressions: total, value for y==0 unspecified
         yield st,I(q if op is ast.FloorDiv else x-y*q)
@@ -1073,6 +1078,11 @@ class Executor:
     c=getattr(s,'contract',None)
     if c is None or not c.loops: return None
     fn=c.fn_ast(s.reg)
+    # string keys name a loop by its header: 'for <target> in <iter>' / 'while <test>' must contain the key (robust against
+    # reordering independent loops); integer keys are ordinals in source order
+    hdr=(f"for {ast.unparse(n.target)} in {ast.unparse(n.iter)}" if isinstance(n,ast.For) else f"while {ast.unparse(n.test)}")
+    hits=[k for k in c.loops if isinstance(k,str) and k in hdr]
+    if hits: return c.loops[max(hits,key=len)]
     loops=[x for x in ast.walk(fn) if isinstance(x,(ast.For,ast.While))]
     loops.sort(key=lambda x:(x.lineno,x.col_offset))
     for i,x in enumerate(loops):
@@ -1268,6 +1278,14 @@ def mk_value(t,name,st,fresh=False):
     return Tup([mk_value(p,f"{name}.{i}",st,fresh) for i,p in enumerate(t.parts)])
   if hasattr(t,'make'): return t.make(name,st,fresh)
   raise ToolError(f"cannot make value of {t}")
+
+def _pow2_arg(t):
+  """k if the term is the uninterpreted pow2(k) (a power of two with symbolic exponent, from 2**k or 1 << k with k >= 0), else None."""
+  try:
+    t=z3.simplify(t) if isinstance(t,z3.ExprRef) else None
+    if t is not None and z3.is_app(t) and t.num_args()==1 and t.decl().name()=='pow2': return t.arg(0)
+  except Exception: pass
+  return None
 
 def type_tag(v,st=None):
   if isinstance(v,I): return 'int'
